@@ -14,7 +14,11 @@ MNext ==
        \/ w \in {9, 10} /\ \E on \in {IF enabled THEN Pick(1..2) = 1 ELSE TRUE} : ParamEff(on) /\ last' = [act |-> "Param", res |-> "ok", on |-> on]
        \/ w = 11 /\ \E bad \in {Pick(1..3) = 1} : RegisterExtEff(bad) /\ last' = [act |-> "RegisterExt", res |-> Res(RegisterExtOK), bad |-> bad]
        \/ w \in {12, 13} /\ (\A e \in Vouchers : ~ext[e]) /\ AddExtEff(d) /\ last' = [act |-> "AddExt", res |-> Res(AddExtOK(d)), denom |-> d]
-       \/ w = 14 /\ \E n \in {Pick({1, 2})} : mx + n <= 3 /\ FundEff(n) /\ last' = [act |-> "Fund", res |-> "ok", n |-> n]
+       \/ w = 14 /\ IF Pick(1..2) = 1
+                     THEN (IF nesc = 0 \/ (nesc < 2 /\ Pick(1..3) = 1)
+                           THEN \E na \in {Pick({"1", "2"})} : nesc + Val(na) <= 2 /\ SendNatEff(na) /\ last' = [act |-> "SendNat", res |-> Res(SendNatOK(na)), amt |-> na]
+                           ELSE RecvNatEff(a, r) /\ last' = [act |-> "RecvNat", res |-> "ok", amt |-> a, recv |-> r, committed |-> (IF NatTransferOK(a, r) THEN "success" ELSE "error")])
+                     ELSE \E n \in {Pick({1, 2})} : mx + n <= 3 /\ FundEff(n) /\ last' = [act |-> "Fund", res |-> "ok", n |-> n]
        \/ w \in {15, 16} /\ d \in BackDenoms /\ SendBackEff(d, a) /\ last' = [act |-> "SendBack", res |-> Res(SendBackOK(d, a)), denom |-> d, amt |-> a]
        \/ w \in {17, 18, 19} /\ \E e \in {IF \E x \in BackDenoms : out[x] > 0 THEN Pick({x \in BackDenoms : out[x] > 0}) ELSE d}, o \in {Pick(Outcomes)} :
              e \in BackDenoms /\ SettleEff(e, o) /\ last' = [act |-> "Settle", res |-> Res(SettleOK(e)), denom |-> e, outcome |-> o]
